@@ -159,6 +159,16 @@ impl_pre = \'\'\'
 \'\'\'
 tail = "if r_tail_ is Ok { assert(serializer.toks() =~= old(serializer).toks() + %s_enc(*self)); assert(self.enc() =~= %s_enc(*self)); }"
 ''' % (sfile, impl_hdr, ty, ty, ty, ty, ty))
+    if len(fields) >= 5 and not has_group:
+        # long records: cut points before each plain field so that every step is one associativity step (keeps the query small and stable)
+        toml[-1] = toml[-1].replace('rewrites = ["serret"]\n', 'rewrites = ["serret"]\nhead_raw = "let ghost t0 = serializer.toks();"\n', 1)
+        xs = parts_self = [q.replace('x.', 'self.') for q in parts]
+        hd = (prefix + ' + ' if prefix else '') + head
+        for k in range(1, len(fields)):
+            if fields[k][0] != 'req':
+                continue
+            pre = ' + '.join([hd] + xs[:k])
+            toml.append('[[fn.hint]]\nbefore_stmt = "self.%s.serialize(serializer)"\nproof = "assert(serializer.toks() =~= t0 + (%s));"\n' % (fields[k][1], pre))
     if has_group:
         toml.append('''[[fn]]
 source = "rust/src/%s"
@@ -186,6 +196,10 @@ COLLS = [
     ("Withdrawals", "lib.rs", "serialization/general.rs", "map", "0", ("R-lhm", "LinkedHashMap<RewardAddress, Coin>", "Vec<(RewardAddress, Coin)>")),
     ("TreasuryWithdrawals", "protocol_types/governance/proposals/treasury_withdrawals.rs", "serialization/governance/proposals/treasury_withdrawals.rs", "map", "0", ("R-btree", "BTreeMap<RewardAddress, Coin>", "Vec<(RewardAddress, Coin)>")),
     ("MIRToStakeCredentials", "protocol_types/certificates/move_instantaneous_rewards_cert.rs", "serialization/certificates/move_instantaneous_rewards_cert.rs", "map", "rewards", ("R-lhm", "LinkedHashMap<Credential, DeltaCoin>", "Vec<(Credential, DeltaCoin)>")),
+    ("MetadataMap", "protocol_types/metadata.rs", "serialization/metadata.rs", "map", "0", ("R-lhm", "LinkedHashMap<TransactionMetadatum, TransactionMetadatum>", "Vec<(MetadatumItem, MetadatumItem)>")),
+    ("MetadataList", "protocol_types/metadata.rs", "serialization/metadata.rs", "array", "0", ("R-abstract-elem", "Vec<TransactionMetadatum>", "Vec<MetadatumItem>")),
+    ("GeneralTransactionMetadata", "protocol_types/metadata.rs", "serialization/metadata.rs", "map", "0", ("R-lhm", "LinkedHashMap<TransactionMetadatumLabel, TransactionMetadatum>", "Vec<(TransactionMetadatumLabel, MetadatumItem)>")),
+    ("TransactionMetadatumLabels", "protocol_types/metadata.rs", "serialization/metadata.rs", "array", "0", None),
     ("ProposedProtocolParameterUpdates", "lib.rs", "serialization/general.rs", "map", "0", ("R-lhm", "LinkedHashMap<GenesisHash, ProtocolParamUpdate>", "Vec<(GenesisHash, ProtocolParamUpdate)>")),
 ]
 spec.append('''
@@ -348,7 +362,7 @@ toml.append(open(os.path.join(D, "contracts/ser_records/custom.toml")).read())
 spec.append(open(os.path.join(D, "contracts/ser_records/custom_spec.rs")).read())
 own = set(t[0] for t in TABLE) | set(c[0] for c in COLLS) | set(l[0] for l in LEAVES) | set(x[0] for x in SETS) | set(d[0] for d in DISPATCH) | set(d[4] for d in DISPATCH if d[4]) | set(re.findall(r'(?m)^name = "(\w+)"', open(os.path.join(D, "contracts/ser_records/custom.toml")).read()))
 opaque -= own
-opaque -= {"Coin", "Epoch", "Port", "BigNum", "TransactionIndex", "GovernanceActionIndex", "Ed25519KeyHash", "ScriptHash", "SubCoin", "PlutusData", "SlotBigNum", "DeltaCoin", "CborSetType", "DedupIndex", "Rc"}
+opaque -= {"Coin", "Epoch", "Port", "BigNum", "TransactionIndex", "GovernanceActionIndex", "Ed25519KeyHash", "ScriptHash", "SubCoin", "PlutusData", "SlotBigNum", "DeltaCoin", "CborSetType", "DedupIndex", "Rc", "MetadatumItem", "TransactionMetadatumLabel", "Language", "PlutusScripts"}
 open(os.path.join(D, "contracts/ser_records/unit.toml"), "w").write("\n".join(toml))
 open(os.path.join(D, "contracts/ser_records/spec.rs"), "w").write("".join(spec))
 open(os.path.join(D, "contracts/ser_records/opaque.rs"), "w").write(
